@@ -35,6 +35,7 @@ func __replaytext(x []rune)                              {}
 func __samefn(a, b any) bool                             { return true }
 func __entry[T any](x T) T                               { return x }
 func __rangeindex() int                                  { return 0 }
+func __lemma(f func())                                   {}
 `
 }
 
@@ -173,6 +174,11 @@ func buildOverlay(pkgDir string) (*OverlayResult, error) {
 			for _, r := range c.Ensures {
 				if txt, ok := substClause(r.Text, lastErr, res0); ok {
 					fmt.Fprintf(&sb, " __ensures(%s, func() bool { return %s });", quoteLabel(r.Label), specToGo(txt, resultName))
+				}
+			}
+			for _, l := range c.Lemmas {
+				if txt, ok := substClause(l, lastErr, res0); ok {
+					fmt.Fprintf(&sb, " __lemma(func() { %s });", specToGo(txt, resultName))
 				}
 			}
 			if c.HasMod {
